@@ -54,6 +54,10 @@ type Server struct {
 
 	outbox chan Transaction
 
+	// lastSend holds, per client, a channel that is closed when the most recently queued transaction for that client
+	// has been written; it is owned by the goroutine draining the outbox.
+	lastSend map[ClientID]chan struct{}
+
 	Agreement io.ReadSeeker
 	Banner    []byte
 
@@ -209,13 +213,33 @@ func (s *Server) sendTransaction(t Transaction) error {
 
 func (s *Server) processOutbox() {
 	for {
-		t := <-s.outbox
-		go func() {
-			if err := s.sendTransaction(t); err != nil {
-				s.Logger.Error("error sending transaction", "err", err)
-			}
-		}()
+		s.dispatch(<-s.outbox)
 	}
+}
+
+// dispatch sends t from a goroutine of its own, so that a slow client does not hold up the others, but only after the
+// transaction queued before it for the same client has been written: a client must see e.g. two notifications about
+// one user in the order in which they were produced.  It must only be called from the goroutine draining the outbox.
+// The returned channel is closed once t has been written (or has failed).
+func (s *Server) dispatch(t Transaction) <-chan struct{} {
+	if s.lastSend == nil {
+		s.lastSend = make(map[ClientID]chan struct{})
+	}
+	prev := s.lastSend[t.ClientID]
+	done := make(chan struct{})
+	s.lastSend[t.ClientID] = done
+
+	go func() {
+		defer close(done)
+		if prev != nil {
+			<-prev
+		}
+		if err := s.sendTransaction(t); err != nil {
+			s.Logger.Error("error sending transaction", "err", err)
+		}
+	}()
+
+	return done
 }
 
 // perIPRateLimit controls how frequently an IP address can connect before being throttled.
